@@ -1,6 +1,7 @@
 package rules
 
 import (
+	"path/filepath"
 	"go/types"
 	"fmt"
 	"go/token"
@@ -992,5 +993,146 @@ func c11SubjectKeys(c *Ctx) {
 	})
 	if n < 5 {
 		r.MissingInstance("C11.9", "<subject fields>", fmt.Sprintf("only %d subject fields read by snapshot handlers (%d handlers)", n, len(handlers)))
+	}
+}
+
+
+// C11.10: event generation builds the slices it hands out from fresh storage. An append whose
+// base is (a window of) a slice the function did not create — a captured variable, a parameter, a
+// field, a map element — and whose result is handed on as a NEW slice (returned, stored into a
+// payload; not assigned back to the variable the base came from) writes into the base's spare
+// capacity: the next call appends over it, and an event already built for one service ends up
+// carrying another service's checks. (`s[:len(s)]` does not clip capacity; `s[:n:n]` does.)
+func c11FreshEventSlices(c *Ctx) {
+	p, r := c.P, c.R
+	n := 0
+	var fresh func(v ssa.Value, depth int) bool
+	visiting := map[ssa.Value]bool{}
+	fresh = func(v ssa.Value, depth int) bool {
+		if depth > 12 {
+			return false
+		}
+		// an accumulator refers to itself through its own appends / loop phis: neutral
+		if visiting[v] {
+			return true
+		}
+		visiting[v] = true
+		defer delete(visiting, v)
+		switch x := v.(type) {
+		case *ssa.MakeSlice:
+			return true
+		case *ssa.Const:
+			return x.IsNil()
+		case *ssa.Slice:
+			// a full slice expression with max == high clips the capacity: appends reallocate
+			if x.Max != nil && x.High != nil && x.Max == x.High {
+				return true
+			}
+			if al, ok := x.X.(*ssa.Alloc); ok {
+				_ = al
+				return true // slice of a local array literal
+			}
+			return fresh(x.X, depth+1)
+		case *ssa.Call:
+			if bi, ok := x.Call.Value.(*ssa.Builtin); ok && bi.Name() == "append" {
+				return fresh(x.Call.Args[0], depth+1)
+			}
+			return false
+		case *ssa.Phi:
+			for _, e := range x.Edges {
+				if e == v {
+					continue
+				}
+				if !fresh(e, depth+1) {
+					return false
+				}
+			}
+			return true
+		case *ssa.UnOp:
+			if x.Op == token.MUL {
+				if al, ok := x.X.(*ssa.Alloc); ok {
+					stores := core.StoresTo(al)
+					if len(stores) == 0 {
+						return true // zero value: nil slice
+					}
+					for _, sv := range stores {
+						if !fresh(sv, depth+1) {
+							return false
+						}
+					}
+					return true
+				}
+			}
+			return false
+		}
+		return false
+	}
+	for _, f := range p.SrcFuncs(statePkg) {
+		file := p.Fset.Position(f.Pos()).Filename
+		if !strings.Contains(filepath.Base(file), "events") {
+			continue
+		}
+		for _, b := range f.Blocks {
+			for _, in := range b.Instrs {
+				call, ok := in.(*ssa.Call)
+				if !ok {
+					continue
+				}
+				if bi, ok := call.Call.Value.(*ssa.Builtin); !ok || bi.Name() != "append" {
+					continue
+				}
+				base := call.Call.Args[0]
+				n++
+				if fresh(base, 0) {
+					continue
+				}
+				// assigned back to where the base came from (x = append(x, …), s.f = append(s.f, …)): same owner
+				back := false
+				ba := core.AccessOf(base)
+				if call.Referrers() != nil {
+					for _, rr := range *call.Referrers() {
+						switch u := rr.(type) {
+						case *ssa.Store:
+							ta := core.AccessOf(u.Addr)
+							if ta.Root == ba.Root && strings.Join(ta.Fields, ".") == strings.Join(ba.Fields, ".") {
+								back = true
+							}
+							if ld, ok := base.(*ssa.UnOp); ok && ld.X == u.Addr {
+								back = true
+							}
+						case *ssa.MapUpdate:
+							if lk, ok := base.(*ssa.Lookup); ok {
+								la, ua := core.AccessOf(lk.X), core.AccessOf(u.Map)
+								if lk.X == u.Map || (la.Root == ua.Root && strings.Join(la.Fields, ".") == strings.Join(ua.Fields, ".")) {
+									back = true
+								}
+							}
+						case *ssa.Phi:
+							// loop-carried accumulator of a base that is itself the phi
+							if u == base {
+								back = true
+							}
+						}
+					}
+				}
+				if ph, ok := base.(*ssa.Phi); ok {
+					for _, e := range ph.Edges {
+						if e == ssa.Value(call) {
+							back = true
+						}
+					}
+				}
+				if back {
+					continue
+				}
+				construct := core.FuncName(f) + "/append" + lineOf(p, in)
+				r.Violate("C11.10", construct, p.Pos(in.Pos()), "an event-generation helper appends to a slice it did not create and hands the result on as a new slice: the appended elements are written into the shared backing array, so the slice built for one subject is overwritten by the next call and a published event carries another subject's data")
+			}
+		}
+	}
+	if n == 0 {
+		r.MissingInstance("C11.10", "<appends>", "no append found in the event generators")
+	} else {
+		r.Hold("C11.10", "<event generators>", "", fmt.Sprintf("%d appends, each on fresh storage or assigned back to the slice it extends", n))
 	}
 }
